@@ -186,16 +186,44 @@ def _receiver_shift_agreement(ctx, index):
             st = n.args[1]
             if isinstance(st, ast.IfExp) and norm(st.body) == "-1" and norm(st.orelse) == "0":
                 start = (st.test, norm(n.args[0])[: -len(".args.args")])
+    from ..defuse import expand_aliases
+
     back = None
-    for n in iter_own(vf.node):
-        if isinstance(n, ast.Call) and norm(n.func) == "int" and len(n.args) == 1 and "self" in norm(n.args[0]):
-            back = (n.args[0], "node")
+    # the correction may sit in visit_FunctionDef or in a method / helper of the same class or module it calls
+    cands = [vf] + [
+        g
+        for g in index.nontest_funcs()
+        if g is not vf and g.mod is vf.mod and any(isinstance(x, ast.Attribute) and x.attr == g.node.name or isinstance(x, ast.Name) and x.id == g.node.name for x in iter_own(vf.node)) and (g.cls == vf.cls or g.cls is None) and g.outer is None
+    ]
+    for g in cands:
+        for n in iter_own(g.node):
+            if isinstance(n, ast.Call) and norm(n.func) == "int" and len(n.args) == 1:
+                full = expand_aliases(g, n.args[0])
+                if "self" in norm(full):
+                    fvar = "node" if g is vf else (g.params[0] if g.params and g.params[0] not in ("self", "cls") else (g.params[1] if len(g.params) > 1 else "node"))
+                    back = (full, fvar)
     if back is None:
         # no correction on the reading side: the index-space rule above reports the raw `_idx` subscript
         return
     ctx.need(start is not None, "annotate_ancestry no longer starts the parameter enumeration at -1 for receivers")
+
+    def receivers(e):
+        """the receiver names {self, cls} a condition accepts, when it has one of the known shapes; else None"""
+        for c in ast.walk(e):
+            if isinstance(c, ast.Compare) and len(c.ops) == 1:
+                consts = {x.value for x in ast.walk(c.comparators[0]) if isinstance(x, ast.Constant) and x.value in ("self", "cls", "static")}
+                subj = norm(c.left)
+                if not (subj.endswith(".arg") or "get_function_type(" in subj):
+                    continue
+                if isinstance(c.ops[0], (ast.Eq, ast.In)) and consts and "static" not in consts:
+                    return frozenset(consts)
+                if isinstance(c.ops[0], (ast.NotEq, ast.NotIn)) and consts == {"static"} and "get_function_type(" in subj:
+                    return frozenset(("self", "cls"))
+        return None
+
+    ra, rb = receivers(start[0]), receivers(back[0])
     a, b = _cond_norm(start[0], start[1]), _cond_norm(back[0], back[1])
-    ok = a == b
+    ok = (ra == rb) if (ra is not None and rb is not None) else a == b
     ctx.ob(
         "C13.index",
         aa,
